@@ -91,10 +91,10 @@ impl RefModel for Layout {
                 }
                 v.push(Act::Ls);
                 v.push(Act::Ss);
-                v.extend([Act::Db(1), Act::Db(2), Act::Db(3), Act::Db(5), Act::Dw(1), Act::Dw(2), Act::Dd, Act::Dq]);
+                v.extend([Act::Db(1), Act::Db(2), Act::Db(3), Act::Db(5), Act::Db(4), Act::Dw(1), Act::Dw(2), Act::Dd, Act::Dq]);
             }
             Seg::E => {
-                v.extend([Act::Db(1), Act::Db(2), Act::Db(3), Act::Db(5), Act::Dw(1), Act::Dd, Act::Dq, Act::Byte(1), Act::Byte(2)]);
+                v.extend([Act::Db(1), Act::Db(2), Act::Db(3), Act::Db(5), Act::Db(4), Act::Dw(1), Act::Dd, Act::Dq, Act::Byte(1), Act::Byte(2)]);
             }
             Seg::D => {
                 v.extend([Act::Byte(1), Act::Byte(2), Act::Byte(3)]);
@@ -229,6 +229,8 @@ impl Layout {
                     let (t, mut b) = match k {
                         1 => (format!(".db {}", id), vec![id as u8]),
                         2 => (format!(".db {}, 0xEE", id), vec![id as u8, 0xee]),
+                        // a non-ASCII string is its UTF-8 bytes (three here), in both passes
+                        4 => (format!(".db {}, \"é!\"", id), vec![id as u8, 0xc3, 0xa9, b'!']),
                         // strings have no escapes: four bytes, the backslashes included
                         5 => (format!(".db {}, \"\\n\\0\"", id), vec![id as u8, b'\\', b'n', b'\\', b'0']),
                         _ => (format!(".db {}, \"ab\"", id), vec![id as u8, b'a', b'b']),
